@@ -155,6 +155,9 @@ func setup(e *emitter, bc *bcase, rr *recRep) (gmars.ReportingSimulator, []gmars
 	var ws []gmars.Warrior
 	for i := range bc.ws {
 		data := &gmars.WarriorData{Code: bc.ws[i].code, Start: bc.ws[i].start}
+		if e.shared != nil && i < len(e.shared) && bc.flags&128 == 0 {
+			data = e.shared[i]
+		}
 		if bc.flags&128 != 0 {
 			// the caller keeps its own slice and scribbles over it after the call
 			data.Code = append([]gmars.Instruction{}, bc.ws[i].code...)
